@@ -74,7 +74,8 @@ func sxCanon(d Doc) string {
 func ratOfFloat64Lit(lit string) *big.Rat {
 	var f float64
 	if err := json.Unmarshal([]byte(lit), &f); err != nil {
-		panic(err)
+		// outside float64 (only generated inside unknown keywords, which keep such numbers exactly)
+		return ratOf(lit)
 	}
 	r := new(big.Rat)
 	r.SetFloat64(f)
